@@ -70,11 +70,11 @@ class Rule(structure.Rule):
             iLength = int((self.max_footer_column - iWhitespace - len(self.footer_string)) / 2) - iFooter_left - 2
             sFooter += self.footer_left_repeat * (iLength)
             sFooter += self.footer_string
-            sFooter += self.footer_right_repeat * (self.max_footer_column - len(sFooter))
+            sFooter += (self.footer_right_repeat or "") * (self.max_footer_column - len(sFooter))
         elif self.footer_alignment == "left":
             sFooter += self.footer_left_repeat
             sFooter += self.footer_string
-            sFooter += self.footer_right_repeat * (self.max_footer_column - len(sFooter))
+            sFooter += (self.footer_right_repeat or "") * (self.max_footer_column - len(sFooter))
         elif self.footer_alignment == "right":
             iLength = self.max_footer_column - iWhitespace - len(sFooter) - len(self.footer_string) - 1
             sFooter += self.footer_left_repeat * (iLength)
